@@ -770,6 +770,11 @@ def c08(ctx):
             return out
         streams.append(("cr-lines", half(), half()))
     streams.append(("cr-lines", b"*2\r\n+k\r\r\n+v\r\n", b"+OK\r\r\n+x\r\n"))
+    # long lines (simple strings, errors, and the digits of an integer) around the sizes at which a reader may change
+    # its way of collecting a line: whether a line is accepted must not depend on the reads it arrived in
+    for n in ((1000, 1024, 1025, 1500, 4096) if quick else (500, 1000, 1023, 1024, 1025, 1026, 1500, 2048, 4095, 4096, 4097, 8000, 8190, 8192, 9000)):
+        streams.append(("longline", b"*3\r\n$3\r\nSET\r\n$1\r\nk\r\n+" + b"v" * n + b"\r\n*2\r\n$3\r\nGET\r\n$1\r\nk\r\n", b"+OK\r\n$-1\r\n"))
+        streams.append(("longline", b"*2\r\n$3\r\nGET\r\n$1\r\nk\r\n" * 2, b"-" + b"E" * n + b"\r\n+" + b"S" * n + b"\r\n"))
     big = gen_conv(rng, tb, 3, True, big=True)
     cb, sb, _, _ = enc_conv(big)
     kcases = []
@@ -779,16 +784,21 @@ def c08(ctx):
         def add(cch, sch, tail):
             cases.append(case_json(cch, sch, tail, tail))
             meta.append((cch, sch, tail))
-        for tail in ((0,) if label == "big" else (0, 2)):
+        for tail in ((0,) if label in ("big", "longline") else (0, 2)):
             add([cb_] if cb_ else [], [sb_] if sb_ else [], tail)
-            if label != "big":
+            if label == "longline":
+                for k in sorted(rng.sample(range(1, len(cb_)), min(25, len(cb_) - 1))):
+                    add([cb_[:k], cb_[k:]], [sb_] if sb_ else [], tail)
+                for k in sorted(rng.sample(range(1, len(sb_)), min(25, len(sb_) - 1))):
+                    add([cb_] if cb_ else [], [sb_[:k], sb_[k:]], tail)
+            if label not in ("big", "longline"):
                 for k in range(1, len(cb_)):
                     add([cb_[:k], cb_[k:]], [sb_] if sb_ else [], tail)
                 for k in range(1, len(sb_)):
                     add([cb_] if cb_ else [], [sb_[:k], sb_[k:]], tail)
                 add([cb_[i:i + 1] for i in range(len(cb_))], [sb_[i:i + 1] for i in range(len(sb_))], tail)
             nrand = (200 // max(1, len(streams))) + 3 if quick else 60
-            for _ in range(nrand if label != "big" else 12):
+            for _ in range(nrand if label not in ("big", "longline") else 12):
                 add(random_chunking(rng, cb_, rng.choice(["few", "many", "two", "page", "4k", "8k"])),
                     random_chunking(rng, sb_, rng.choice(["few", "many", "two", "page", "4k", "8k", "bytes"])), tail)
         res = run_cases(ctx, cases)
@@ -989,6 +999,9 @@ def c02(ctx):
     for what, cb, sb in heavy:
         for tail in (0, 1, 2):
             add(cb, sb, tail, tail, {"shape": what})
+    for tail in (3, 4):          # an error that says "time-out", once / on every further read
+        add(G * 3, b"$1\r\nv\r\n" * 3, tail, tail, {"shape": "time-out at the end of the stream"})
+        add(G * 3, b"$100\r\nv", tail, tail, {"shape": "time-out inside a bulk string"})
     res = run_cases(ctx, cases, mode="cost", timeout=1500)
     worst = None
     for (cb, sb, ct, st, what), r in zip(meta, res):
